@@ -4,7 +4,7 @@ from hypothesis import strategies as st
 
 @st.composite
 def tags(draw, ncells, subdomains=True, boundaries=True, oriented=False, maxnames=2, pools=('boundary', 'interior', 'all'),
-         names=False):
+         names=False, empty_boundaries=False):
     """names=True: realistic names that contain the separators/prefixes storage formats use internally"""
     SN = ['s_s', 'glass_1', 'solid', 'rib_s_2', 'b_core', 'Omega', 's_', 'left']
     BN = ['b_b', 'web_top', 'gamma', 'rib_b_2', 's_wall', 'b_', 'inlet_b_s_', 'left']
@@ -29,6 +29,8 @@ def tags(draw, ncells, subdomains=True, boundaries=True, oriented=False, maxname
             spec = dict(pool=draw(st.sampled_from(list(pools))),
                         picks=draw(st.lists(st.integers(0, 10**4), min_size=1, max_size=12)))
             spec['ori'] = draw(st.lists(st.integers(0, 1), min_size=1, max_size=6)) if (oriented and draw(st.booleans())) else None
+            if empty_boundaries and draw(st.integers(0, 5)) == 0:
+                spec['picks'] = []          # a named boundary that (currently) matches no facet is still a name
             b[(draw(st.sampled_from(BN)) if names else f'b{k}')] = spec
         out['boundaries'] = b
     return out
